@@ -32,6 +32,10 @@ package dns
 //@ func (*OPT).isDuplicate [C20]
 //@   ensures self: ref(r2) == ref(rr) ==> ret0 [C20]
 
+// records of a user-registered private type never compare equal either (same shape as OPT; see known findings)
+//@ func (*PrivateRR).isDuplicate [C20]
+//@   ensures self: ref(r2) == ref(r) ==> ret0 [C20]
+
 //@ func (*APLPrefix).equals [C20]
 //@   requires a != nil && b != nil
 //@   exit neg: ret0 ==> a.Negation == b.Negation
